@@ -427,21 +427,21 @@ pub fn replay_special(run: &mut Run, stream: &str, a: &[&str]) -> bool {
     if stream != "dtlslive" || a.len() != 3 { return false; }
     let state = a[0]; let i: usize = a[1].parse().unwrap_or(0);
     let mut s = match state {
-        "flood-hvr" => { let mut r2 = Run::new("c07", "/tmp/c07-replay-flood"); hvr_flood(&mut r2);
-            for f in &r2.fails { run.fails.push(f.clone()); } let _ = std::fs::remove_dir_all("/tmp/c07-replay-flood"); return true; }
-        "flood-ccs-server" | "flood-ccs-client" => { let mut r2 = Run::new("c07", "/tmp/c07-replay-flood"); ccs_flood(&mut r2, state.ends_with("client"));
-            for f in &r2.fails { run.fails.push(f.clone()); } let _ = std::fs::remove_dir_all("/tmp/c07-replay-flood"); return true; }
+        "flood-hvr" => { let mut r2 = Run::new("c07", &crate::scratch("c07-replay-flood")); hvr_flood(&mut r2);
+            for f in &r2.fails { run.fails.push(f.clone()); } let _ = std::fs::remove_dir_all(crate::scratch("c07-replay-flood")); return true; }
+        "flood-ccs-server" | "flood-ccs-client" => { let mut r2 = Run::new("c07", &crate::scratch("c07-replay-flood")); ccs_flood(&mut r2, state.ends_with("client"));
+            for f in &r2.fails { run.fails.push(f.clone()); } let _ = std::fs::remove_dir_all(crate::scratch("c07-replay-flood")); return true; }
         st if st.starts_with("flood-server-t") || st.starts_with("flood-client-t") => {
             // the flood is the witness (the single datagram of the case line does not reproduce accumulated state):
             // replay the whole flood of that type; server floods run with a genuine ClientHello captured from a reference handshake
             let is_client = st.starts_with("flood-client");
             let typ: u8 = st.rsplit('t').next().and_then(|x| x.parse().ok()).unwrap_or(14);
-            let mut r2 = Run::new("c07", "/tmp/c07-replay-flood");
+            let mut r2 = Run::new("c07", &crate::scratch("c07-replay-flood"));
             let prelude: Vec<Vec<u8>> = if is_client { vec![] } else {
                 let r = Session::new(true, false, usize::MAX); r.wait_connected(4000);
                 let w = r.wire.lock().clone(); w.iter().filter(|(d, _)| *d == 1).take(1).map(|(_, p)| p.clone()).collect() };
             type_flood(&mut r2, is_client, &prelude, typ, if is_client { 0 } else { 1 });
-            for f in &r2.fails { run.fails.push(f.clone()); } let _ = std::fs::remove_dir_all("/tmp/c07-replay-flood"); return true; }
+            for f in &r2.fails { run.fails.push(f.clone()); } let _ = std::fs::remove_dir_all(crate::scratch("c07-replay-flood")); return true; }
         "pre-server" | "fresh-server" => { let s = Session::new(false, false, usize::MAX); s.step(1); s }
         "pre-client" | "fresh-client" => { let s = Session::new(false, true, usize::MAX); s.step(1); s }
         st if st.starts_with("mid") => { let s = Session::new(true, false, st[3..].parse().unwrap_or(1)); s.step(30); s }
